@@ -4,7 +4,7 @@
 # twenty quick checks are run against it; any exit != 0 is an alarm on code where the property holds.
 # usage: ./benign_run.sh [benign/<id> ...]     (default: all)  -> prints one line per change, writes <dir>/benign.json
 cd "$(dirname "$0")"
-[ $# -eq 0 ] && set -- benign/*/
+[ $# -eq 0 ] && set -- benign/C*/
 for d in "$@"; do
   d=${d%/}
   [ -f $d/meta.json ] || continue
